@@ -460,3 +460,43 @@ func verif_C20_stop_vs_accept() {
 	verifAssert(verifGoroutinesAlive() == 0, "C20.stop-vs-accept-no-goroutine-left")
 	verifReach("C20.stop-vs-accept-end")
 }
+
+// verif_C20_close_inside_newsession: Server.Close (or Shutdown) called while the
+// backend is inside NewSession for a connection - here from within the
+// callback itself, which fixes the moment exactly. "Close ends every
+// connection exactly once": the session NewSession then returns is logged out
+// exactly once all the same, Serve-side bookkeeping ends, nothing is left.
+func verif_C20_close_inside_newsession() {
+	verifPreemptBound(verifBound(1, 2))
+	be := &vbackend{}
+	s, _ := verifServer(be)
+	how := verifChoice(3)
+	be.onNewSession = func(c *Conn) {
+		switch how {
+		case 0:
+			s.Close()
+		case 1:
+			c.Close()
+		case 2:
+			go s.Close()
+		}
+	}
+	verifHB(true)
+	vc := &vconn{in: []byte("EHLO c\r\nNOOP\r\n"), final: io.EOF}
+	c := newConn(vc, s)
+	s.handleConn(c)
+	verifSettle()
+	verifObserve("c20cin", how, be.sessions)
+	for id := 1; id <= be.sessions; id++ {
+		n := 0
+		for _, e := range be.trace {
+			if e.kind == "Logout" && e.sess == id {
+				n++
+			}
+		}
+		verifAssert(n == 1, "C20.close-inside-newsession-every-session-logged-out-exactly-once")
+	}
+	verifAssert(vc.closed, "C20.close-inside-newsession-connection-ended")
+	verifAssert(verifGoroutinesAlive() == 0, "C20.close-inside-newsession-no-goroutine-left")
+	verifReach("C20.close-inside-newsession-end")
+}
